@@ -21,6 +21,11 @@ ASSUMPTIONS = ["feature definitions as documented / as worded in the statement (
                "machine-level duration / remaining-operations only on non-flexible instances"]
 
 
+CONSULT = ["observer_based_most_work_remaining_rule", "most_work_remaining_rule", "most_operations_remaining_rule",
+           "shortest_processing_time_rule", "first_come_first_served_rule", "most_operations_remaining_score",
+           "shortest_processing_time_score", "first_come_first_served_score"]
+
+
 def gen_observers(rng, all_prob=0.3):
     if rng.random() < all_prob:
         types = list(FEATURE_TYPES)
@@ -49,8 +54,9 @@ def generate(seed, tier):
     obs = gen_observers(rng)
     if rng.random() < 0.7:
         obs.append({"t": "composite"})
+    consult = [(0.12, lambda r: ["consult", r.choice(CONSULT)])] if rng.random() < 0.4 else None
     ops = gen_dispatch_ops(rng, n_ops(spec), p_query=0.05, p_invalid=0.04, p_reset=0.04 if rng.random() < 0.5 else 0.0,
-                           episodes=2 if rng.random() < 0.15 else 1)
+                           episodes=2 if rng.random() < 0.15 else 1, extra=consult)
     return {"prop": PROP, "cfg": {"instance": spec, "filter": names, "filter_style": style, "observers": obs}, "ops": ops}
 
 
@@ -109,6 +115,25 @@ def check_composite(w, comp, when):
 
 
 class H(Hooks):
+    def extra(self, w, i, op):
+        if op[0] == "consult":
+            # a dispatching rule / scoring function is consulted between dispatches (as a rule-driven history does
+            # before every step); it only reads, so every feature must still equal its specification afterwards
+            from job_shop_lib.dispatching import rules as r
+            from ..util import Foreign
+            from ..core import short_exc
+
+            if w.model.is_complete():
+                return "complete"
+            try:
+                getattr(r, op[1])(w.disp)
+            except Exception as e:  # noqa: BLE001
+                raise Foreign("C04", f"{op[1]} raised {short_exc(e)}")
+            compare_features(w, f"after consulting {op[1]} in state nxt={w.model.nxt}")
+            w.ctx.probe("rule_consulted_between_dispatches")
+            return op[1]
+        return super().extra(w, i, op)
+
     def after(self, w, i, kind, info):
         if kind == "reset":
             compare_features(w, f"after reset #{w.n_resets}")
